@@ -101,7 +101,9 @@ VALUES = [
     "'{'", "'}'", "'%'", "' '", "'\\n'", "'x' 'y' 'z'", "('a'\n 'b')",
 ]
 SOME_VALUES = VALUES[:12] + VALUES[14:24] + ["'/tmp/x'", "'0.0.0.0'", "'\\ud800'", "('a'\n 'b')"]
-CORE_VALUES = ["'s3cret'", "''", "b'bytes'", "f'x{y}'", "None", "5", "name", "g()", "'a' + 'b'", "\"it's\"",
+LONG_LITERAL = "'eyJhbGciOiJIUzI1NiIsInR5cCI6IkpXVCJ9." + "0123456789abcdef" * 8 + ".zz_tail_A'"      # longer than any log line budget
+LONG_LITERAL2 = LONG_LITERAL[:-8] + "zz_tail_B'"                                                       # same long prefix, other tail
+CORE_VALUES = [LONG_LITERAL, LONG_LITERAL2, "'s3cret'", "''", "b'bytes'", "f'x{y}'", "None", "5", "name", "g()", "'a' + 'b'", "\"it's\"",
                "'/tmp/x'", "'0.0.0.0'", "'\u00e9\u2713'", "'s3cret'", "'s3cret'", "'hunter2'"]
 
 # ------------------------------------------------------------------------------------------------
